@@ -198,6 +198,31 @@ func setRV(dst reflect.Value, x Val) {
 	dst.Set(rv)
 }
 
+func hintOf(t reflect.Type) string {
+	switch t.Kind() {
+	case reflect.Interface:
+		return ""
+	case reflect.String:
+		return "str"
+	case reflect.Bool:
+		return "bool"
+	case reflect.Float64:
+		return "float64"
+	case reflect.Map:
+		return "map"
+	case reflect.Slice:
+		return "list"
+	case reflect.Ptr:
+		return "*" + t.Elem().Name()
+	case reflect.Struct:
+		return t.Name()
+	}
+	if isIntKind(t.Kind().String()) {
+		return t.Kind().String()
+	}
+	return ""
+}
+
 // FromGo converts any Go value back to a Val (never calls Interface on unexported fields).
 func FromGo(x any) Val {
 	if x == nil {
@@ -231,7 +256,7 @@ func fromRV(rv reflect.Value) Val {
 		if rv.Kind() == reflect.Array {
 			k = "arr"
 		}
-		out := Val{K: k, L: []Val{}}
+		out := Val{K: k, L: []Val{}, T: hintOf(rv.Type().Elem())}
 		for i := 0; i < rv.Len(); i++ {
 			out.L = append(out.L, fromRV(rv.Index(i)))
 		}
@@ -270,6 +295,15 @@ func fromRV(rv reflect.Value) Val {
 		return Val{K: "ptr", T: rv.Type().Elem().Name(), P: &t}
 	}
 	return VStr(fmt.Sprintf("<%s>", rv.Kind()))
+}
+
+func fieldMeta(typ, name string) (tag string, exported bool) {
+	if t, ok := structTypes[typ]; ok {
+		if f, ok := t.FieldByName(name); ok {
+			return f.Tag.Get("json"), f.IsExported()
+		}
+	}
+	return "", false
 }
 
 // Normalize fills Tag/Exported of struct fields from the Go type (so generators need not).
@@ -365,7 +399,8 @@ func (v Val) Coq() string {
 		return "(VMapI " + coqList(v.M, func(kv KV) string { return "(" + coqZ(kv.ZK) + ", " + kv.V.Coq() + ")" }) + ")"
 	case "struct":
 		return "(VStruct " + coqList(v.M, func(kv KV) string {
-			return fmt.Sprintf("(%s, %s, %s, %s)", coqBytes(kv.K), coqBytes(kv.Tag), coqBool(kv.Exported), kv.V.Coq())
+			tag, exp := fieldMeta(v.T, kv.K)
+			return fmt.Sprintf("(%s, %s, %s, %s)", coqBytes(kv.K), coqBytes(tag), coqBool(exp), kv.V.Coq())
 		}) + ")"
 	case "ptr":
 		if v.P == nil {
@@ -440,4 +475,69 @@ func descScope(m map[string]Val) any {
 		out[k] = v.Desc()
 	}
 	return out
+}
+
+func (v Val) hasLivePtr() bool {
+	switch v.K {
+	case "ptr":
+		return v.P != nil
+	case "list", "arr":
+		for _, x := range v.L {
+			if x.hasLivePtr() {
+				return true
+			}
+		}
+	case "map", "mapi", "struct":
+		for _, kv := range v.M {
+			if kv.V.hasLivePtr() {
+				return true
+			}
+		}
+	}
+	return false
+}
+
+// Printable mirrors printable_val: fmt prints nested non-nil pointers as addresses.
+func (v Val) Printable() bool {
+	if v.K == "ptr" && v.P != nil {
+		return !v.P.hasLivePtr()
+	}
+	return !v.hasLivePtr()
+}
+
+// StructToMapVal mirrors struct_to_map / to_env of Model/Stack.v on harness values.
+func (v Val) ToEnv() Val {
+	switch v.K {
+	case "ptr":
+		if v.P == nil {
+			return Val{K: "map"}
+		}
+		return v.P.ToEnv()
+	case "struct":
+		out := Val{K: "map"}
+		idx := map[string]int{}
+		for _, kv := range v.M {
+			tag, exp := fieldMeta(v.T, kv.K)
+			if !exp {
+				continue
+			}
+			key := kv.K
+			if t := strings.Split(tag, ",")[0]; t != "" {
+				key = t
+			}
+			val := kv.V
+			if val.K == "struct" || val.K == "ptr" {
+				val = val.ToEnv()
+			}
+			if i, ok := idx[key]; ok {
+				out.M[i].V = val
+			} else {
+				idx[key] = len(out.M)
+				out.M = append(out.M, KV{K: key, V: val})
+			}
+		}
+		sort.Slice(out.M, func(i, j int) bool { return out.M[i].K < out.M[j].K })
+		return out
+	}
+	return v
 }
